@@ -54,10 +54,19 @@ BASE_SHAPES = {
     # diamond over two stages with a final-stage leaf that may be shut down
     "diamond": [comp("a", shutOn=KI, outs=(1, 2)), comp("b", prods=["a"], outs=(1,)), comp("c", prods=["a"], shutOn=KI, outs=(1, 2)),
                 comp("d", stage=1, prods=["b", "c"], outs=(1, 4))],
+    # three stages (restart from stage 1 or 2; a failure / shutdown in the middle stage)
+    "stages3": [comp("a", shutOn=KI, outs=(1, 2)), comp("b", stage=1, prods=["a"], outs=(1, 4)), comp("y", stage=1, outs=(1, 2), shutOn=KI),
+                comp("c", stage=2, prods=["b", "y"], outs=(1,))],
+    # an observer in the last of three stages whose producers sit in both earlier stages, plus a same-stage subject
+    "obs3": [comp("z", outs=(1,)), comp("w", stage=1, prods=["z"], outs=(1, 4)), comp("p", stage=2, shutOn=KI, outs=(1, 2)),
+             comp("o", stage=2, prods=["w", "p"], repeat=True, outs=(1,))],
 }
 
 QUICK = ["chain2", "chain2s", "chain3", "stages2", "fanin", "obs", "obs2", "obschain", "agg", "restart", "xfail", "aggfail"]
 THOROUGH = QUICK + ["aggchain", "diamond"]
+# growth item G02 (external kill, restart from a later stage, sleep / wake-up, memoization)
+G02_QUICK = ["chain2", "stages2", "fanin", "obs", "obs2", "agg", "xfail", "aggfail", "restart", "stages3"]
+G02_THOROUGH = G02_QUICK + ["chain3", "obschain", "diamond", "obs3"]
 
 
 def expand(base):
